@@ -314,6 +314,7 @@ func typeImplementRules(c *core.Ctx, r *core.Report, rule string) {
 // result goes elsewhere would hand the variable's spare capacity to its caller (two callers then share one backing array).
 func globalAppendRules(c *core.Ctx, r *core.Report, rule string) {
 	n := 0
+	appended := map[*ssa.Global]bool{}
 	for _, fn := range c.Scope {
 		for _, b := range fn.Blocks {
 			for _, in := range b.Instrs {
@@ -337,6 +338,7 @@ func globalAppendRules(c *core.Ctx, r *core.Report, rule string) {
 				for _, rf := range *call.Referrers() {
 					if st, isSt := rf.(*ssa.Store); isSt && st.Addr == ssa.Value(g) && st.Val == ssa.Value(call) {
 						okStore = true
+						appended[g] = true
 					}
 				}
 				others := 0
@@ -356,6 +358,32 @@ func globalAppendRules(c *core.Ctx, r *core.Report, rule string) {
 	}
 	if n == 0 {
 		r.Hold(rule, "append-to-global", "", "no append on a package-level slice in scope")
+	}
+	// a package-level list that registrations are appended to is never emptied or replaced: what was registered is
+	// there for every start of the process
+	for g := range appended {
+		for _, fn := range c.Scope {
+			for _, b := range fn.Blocks {
+				for _, in := range b.Instrs {
+					st, ok := in.(*ssa.Store)
+					if !ok || st.Addr != ssa.Value(g) {
+						continue
+					}
+					isApp := false
+					if call, isCall := st.Val.(*ssa.Call); isCall {
+						if bi, isB := call.Common().Value.(*ssa.Builtin); isB && bi.Name() == "append" {
+							if ld, isLoad := call.Common().Args[0].(*ssa.UnOp); isLoad && ld.X == ssa.Value(g) {
+								isApp = true
+							}
+						}
+					}
+					if fn.Synthetic != "" && fn.Name() == "init" {
+						isApp = true // the variable's own initialiser
+					}
+					r.Check(isApp, rule, "store-to-global:"+g.Name()+"@"+core.FnName(fn), c.Pos(st.Pos()), "a package-level registration list is only ever appended to (emptying or replacing it would lose registrations for the next start)")
+				}
+			}
+		}
 	}
 }
 
